@@ -70,6 +70,34 @@ class _Data:
         return iter(self.columns_)
 
 
+def _rewrite_percent(fn, namespace):
+    """declared rewrite: `"%s" % x` -> `"%s" % (x,)` (identical for non-tuple x; CrossHair 0.0.110 only models the
+    tuple form).  Exactly one site is expected in partition_on_columns."""
+    import ast, inspect, textwrap
+    tree = ast.parse(textwrap.dedent(inspect.getsource(fn)))
+    count = [0]
+
+    class T(ast.NodeTransformer):
+        def visit_BinOp(self, node):
+            self.generic_visit(node)
+            if isinstance(node.op, ast.Mod) and isinstance(node.left, ast.Constant) and node.left.value == "%s" \
+                    and isinstance(node.right, ast.Name):
+                count[0] += 1
+                node.right = ast.Tuple(elts=[node.right], ctx=ast.Load())
+            return node
+    tree = T().visit(tree)
+    ast.fix_missing_locations(tree)
+    if count[0] != 1:
+        raise RuntimeError("expected one '%%s' %% name site in %s, found %d" % (fn.__name__, count[0]))
+    exec(compile(tree, "<%s with declared rewrite>" % fn.__name__, "exec"), namespace)
+    return namespace[fn.__name__]
+
+
+_NSW = dict(writer.__dict__)
+_NSW["sorted"] = lambda gb: list(gb)          # group order is pandas' business; identity keeps keys as given
+POC = _rewrite_percent(writer.partition_on_columns, _NSW)
+
+
 def _written_paths(part_cols, keys, hive):
     """run the real partition_on_columns; returns the relative paths recorded on the row groups"""
     made = []
@@ -85,17 +113,14 @@ def _written_paths(part_cols, keys, hive):
         def __exit__(self, *a):
             return False
     opened, dirs = [], []
-    saved = (writer.make_part_file, writer.__dict__.get("sorted"))
-    writer.make_part_file = make_part_file
-    writer.sorted = lambda gb: list(gb)          # group order is pandas' business; identity keeps keys as given
+    _NSW["make_part_file"] = make_part_file
     try:
-        rgs = writer.partition_on_columns(
+        rgs = POC(
             _Data(list(part_cols) + ["v"], keys), list(part_cols), "root", "part.0.parquet",
             parquet_thrift.FileMetaData(schema=[]), None, lambda p, m: (opened.append(p), _F())[1],
             lambda p: dirs.append(p), with_field=hive)
     finally:
-        writer.make_part_file = saved[0]
-        del writer.sorted
+        _NSW["make_part_file"] = writer.make_part_file
     return [rg.columns[0].file_path for rg in rgs], opened, dirs
 
 
@@ -166,11 +191,17 @@ def replay_h_hive_str_rest(a, b):
     return _replay_keys([a, b], "hive")
 
 
-def h_hive_int(a: int, b: int) -> bool:
+INTS = [-120, -11, -1, 0, 7, 10, 99, 100, 2147483648]
+
+
+def h_hive_int(ia: int, ib: int) -> bool:
     """
-    pre: a != b and -1000 <= a <= 1000 and -1000 <= b <= 1000
+    pre: ia != ib and 0 <= ia < 9 and 0 <= ib < 9
     post: __return__
     """
+    # integer keys of every digit count / sign (chosen by symbolic index from a table: decimal rendering of a
+    # symbolic integer is outside what CrossHair decides)
+    a, b = INTS[ia], INTS[ib]
     saved = util.np
     util.np = _NPu
     try:
@@ -185,15 +216,16 @@ def h_hive_int(a: int, b: int) -> bool:
         util.np = saved
 
 
-def replay_h_hive_int(a, b):
-    return _replay_keys([a, b], "hive")
+def replay_h_hive_int(ia, ib):
+    return _replay_keys([INTS[ia], INTS[ib]], "hive")
 
 
-def h_hive_bool_and_two_columns(x: bool, n: int, s: str) -> bool:
+def h_hive_bool_and_two_columns(x: bool, i_n: int, s: str) -> bool:
     """
-    pre: -50 <= n <= 50 and 1 <= len(s) <= 1 and _legal(s) and chr(92) not in s
+    pre: 0 <= i_n < 9 and 1 <= len(s) <= 1 and _legal(s) and chr(92) not in s
     post: __return__
     """
+    n = INTS[i_n]
     # three partition columns (bool, int, str) in one path: each comes back under its own name with its own kind
     saved = util.np
     util.np = _NPu
@@ -211,7 +243,7 @@ def h_hive_bool_and_two_columns(x: bool, n: int, s: str) -> bool:
         util.np = saved
 
 
-def replay_h_hive_bool_and_two_columns(x, n, s):
+def replay_h_hive_bool_and_two_columns(x, i_n, s):
     return None, "no concrete driver"
 
 
@@ -225,7 +257,8 @@ def h_drill_str(a: str, b: str) -> bool:
     paths, opened, dirs = _written_paths(["k"], [a, b], False)
     if len(set(paths)) != 2:
         return False
-    return [p.rsplit("/", 1)[0] for p in paths] == [a, b]
+    return paths == [a + "/part.0.parquet", b + "/part.0.parquet"] and dirs == ["root/" + a, "root/" + b] and \
+        opened == ["root/" + a + "/part.0.parquet", "root/" + b + "/part.0.parquet"]
 
 
 def replay_h_drill_str(a, b):
